@@ -49,6 +49,8 @@ type history struct {
 	Key    string  `json:"key,omitempty"` // corpus: key of the finding in known_findings.json
 	Core   bool    `json:"core"` // every statement is modelled exactly: values compared with the model too
 	Steps  []*step `json:"steps"`
+	Matrix string  `json:"matrix,omitempty"` // matrix history (matrix.go): kind:depth:width
+	Head   int     `json:"-"`                // leading steps always shown in a failure report
 	corpus bool
 	names  map[int]string // id -> gomacro name
 }
@@ -85,6 +87,7 @@ type gen struct {
 	noGo   bool
 	vers   map[string]int
 	redefOther int // redefinitions with another type of a variable that a pointer / function refers to
+	slots  int // Env.Ints slots requested so far (matrix histories)
 }
 
 type fn struct {
@@ -977,6 +980,25 @@ func main() {
 			hist = append(hist, genHistory(rng.Fork(), idx, i%2 == 0, 30+rng.Intn(30), n))
 		}
 	}
+	// matrix histories (matrix.go): every int-like kind x every depth of the address-of, Env.Ints used up, operator sweep
+	depths, width, rounds, nNarrow := []int{0, 1, 2, 3}, 64, 1, 4
+	if a.Thorough() {
+		depths, rounds, nNarrow = []int{0, 1, 2, 3, 4, 5}, 3, 0
+	}
+	specs := matrixSpecs(rng.Fork(), depths, width, rounds)
+	if a.Thorough() {
+		// ... and with ONE declaration per evaluation
+		specs = append(specs, matrixSpecs(rng.Fork(), []int{0, 1, 2, 3}, 1, 1)...)
+	}
+	for i := 0; i < nNarrow; i++ {
+		specs = append(specs, matrixSpec{kind: pick(rng, intLikeNames), depth: rng.Intn(5), width: 1})
+	}
+	if a.N > 0 && a.N < len(specs) {
+		specs = specs[:a.N]
+	}
+	for _, sp := range specs {
+		hist = append(hist, genMatrix(rng.Fork(), len(hist), sp))
+	}
 	for i, h := range hist {
 		h.Idx = i
 	}
@@ -989,14 +1011,18 @@ func main() {
 			gens = append(gens, h)
 		}
 	}
-	per := 150
-	for b := 0; b*per < len(gens); b++ {
-		hi := (b + 1) * per
-		if hi > len(gens) {
-			hi = len(gens)
+	var batches [][]*history
+	nsteps := 0
+	for _, h := range gens {
+		if len(batches) == 0 || len(batches[len(batches)-1]) >= 150 || nsteps+len(h.Steps) > 30000 {
+			batches, nsteps = append(batches, nil), 0
 		}
+		batches[len(batches)-1] = append(batches[len(batches)-1], h)
+		nsteps += len(h.Steps)
+	}
+	for b, batch := range batches {
 		wd.Beat(fmt.Sprintf("oracle batch %d", b))
-		res, err := oracle(a, gens[b*per:hi], b)
+		res, err := oracle(a, batch, b)
 		if err != nil {
 			// the oracle itself is broken: machinery failure, not a finding
 			fmt.Fprintln(os.Stderr, err)
@@ -1008,7 +1034,8 @@ func main() {
 	}
 
 	header := "From Coq Require Import List ZArith Bool.\nFrom Verif Require Import C14.Model.\nImport ListNotations.\nOpen Scope Z_scope."
-	cw := vh.NewCases(a, header, "case", "mismatches", 11)
+	var terms []string // Coq cases, written at the end in an order that balances the shards
+	nMatrix := 0
 	for _, h := range hist {
 		wd.Beat(map[string]interface{}{"history": h.Idx, "name": h.Name})
 		ir := newInterp()
@@ -1039,7 +1066,14 @@ func main() {
 				}
 			}
 			fail := func(what string, got, wantv interface{}) {
-				rep.Fail(vh.Failure{Key: key, What: what, Input: map[string]interface{}{"history_tail": srcsUpTo(h, i), "step": i}, Got: got, Want: wantv})
+				in := map[string]interface{}{"history_tail": srcsUpTo(h, i), "step": i}
+				if h.Head > 0 && i > 40 {
+					// the declarations and the address-of at the start of a matrix history; the steps between head and tail are
+					// declarations of further int-like globals (inputs.jsonl holds the complete history)
+					in["history_head"] = srcsUpTo(h, h.Head-1)
+					in["matrix"] = h.Matrix
+				}
+				rep.Fail(vh.Failure{Key: key, What: what, Input: in, Got: got, Want: wantv})
 			}
 			// ---- direct oracle
 			if h.corpus {
@@ -1068,6 +1102,12 @@ func main() {
 				}
 			}
 			rep.Dist("stmt:" + strings.SplitN(s.Kind, ":", 2)[0])
+			if f := strings.Split(s.Kind, ":"); len(f) == 7 && f[1] == "op" && s.GoRead != "" {
+				// mx:op:<op>:<kind>:<const|var>:<intbind|boxed>:depthN
+				rep.Dist("sweep:op:" + f[2] + ":" + f[4])
+				rep.Dist("sweep:kind:" + f[3] + ":" + f[5])
+				rep.Dist("sweep:" + f[6] + ":" + f[5])
+			}
 			if strings.HasPrefix(s.Kind, "redefine:") {
 				rep.Dist("stmt:" + s.Kind)
 			}
@@ -1078,10 +1118,28 @@ func main() {
 			}
 		}
 		if !h.corpus {
-			cw.Add(fmt.Sprintf("mkCase %d %s\n  %s\n  %s", h.Idx, vh.CoqBool(h.Core), vh.CoqList(cstm, "(list stmt)"), vh.CoqList(cobs, "obs")))
-			rep.CaseInput(h.Idx, map[string]interface{}{"core": h.Core, "srcs": srcsUpTo(h, len(h.Steps)-1)})
+			in := map[string]interface{}{"core": h.Core, "srcs": srcsUpTo(h, len(h.Steps)-1)}
+			if h.Matrix != "" {
+				// the model replays every matrix history up to a few evaluations after the address-of (IntAddressTaken, classes
+				// and indexes of all names declared so far) and one history in four (all of them in the thorough tier) completely
+				nMatrix++
+				in["matrix"], in["head"] = h.Matrix, srcsUpTo(h, h.Head-1)
+				if n := h.Head + 6; !a.Thorough() && (nMatrix+int(a.Seed))%4 != 0 && n < len(cstm) {
+					cstm, cobs = cstm[:n], cobs[:n]
+					in["model_replays_first_steps"] = n
+				}
+			}
+			terms = append(terms, fmt.Sprintf("mkCase %d %s\n  %s\n  %s", h.Idx, vh.CoqBool(h.Core), vh.CoqList(cstm, "(list stmt)"), vh.CoqList(cobs, "obs")))
+			rep.CaseInput(h.Idx, in)
 		}
 		rep.Count(canon.String(), addrTaken && declsAfter >= 5)
+		if h.Matrix != "" {
+			rep.Dist("history:matrix")
+			rep.Dist("matrix:address-of:" + h.Matrix[:strings.LastIndex(h.Matrix, ":")])
+			if strings.HasSuffix(h.Matrix, ":width1") {
+				rep.Dist("history:matrix:one-declaration-per-evaluation")
+			}
+		}
 		switch {
 		case h.corpus:
 			rep.Dist("history:corpus")
@@ -1099,6 +1157,15 @@ func main() {
 		rep.Dist(fmt.Sprintf("history_len:%d-%d", len(h.Steps)/100*100, len(h.Steps)/100*100+99))
 		if h.Idx%41 == 5 {
 			rep.Sample(srcsUpTo(h, min(len(h.Steps)-1, 12)))
+		}
+	}
+	// 8 shards of about equal weight: largest cases first, dealt round-robin
+	sort.SliceStable(terms, func(i, j int) bool { return len(terms[i]) > len(terms[j]) })
+	const nShards = 8
+	cw := vh.NewCases(a, header, "case", "mismatches", (len(terms)+nShards-1)/nShards)
+	for sh := 0; sh < nShards; sh++ {
+		for i := sh; i < len(terms); i += nShards {
+			cw.Add(terms[i])
 		}
 	}
 	cw.Close()
